@@ -171,7 +171,9 @@ class Srv:
             other = B if arr["auth"] == A else A
             loc = "http://%s:%d%s" % (other[0], other[1], hop)
         elif k == "redir-downgrade":
-            loc = "http://%s:%d%s" % (B[0], B[1], hop)
+            # to the other authority, or (same) to the very host and port the https client is connected to
+            tgt = arr["auth"] if beh.get("same") else B
+            loc = "http://%s:%d%s" % (tgt[0], tgt[1], hop)
         else:
             raise ValueError(k)
         arr["location"] = loc
@@ -329,7 +331,7 @@ def _strategy():
                                    "ops": st.lists(st.one_of(req, req, svc, svc, svc), min_size=1, max_size=24),
                                    "behaviours": st.lists(st.one_of(ok, ok, redir), min_size=1, max_size=8)})
     down = st.fixed_dictionaries({"kind": st.just("redir-downgrade"), "code": st.sampled_from([301, 302, 307]),
-                                  "delay": st.just(0), "frag": st.just(4096)})
+                                  "delay": st.just(0), "frag": st.just(4096), "same": st.booleans()})
     ok_open = st.fixed_dictionaries({"kind": st.just("ok"), "delay": st.sampled_from([0, 1]), "frag": st.just(4096),
                                      "chunked": st.booleans(), "close": st.just(False)})
     tls = st.fixed_dictionaries({"tls": st.just(True),
